@@ -121,7 +121,11 @@ def group_key(beh):
                       tuple((i["k"], i["s"] == 0, abs(i["st"]) == 1, i["st"] > 0, i["t"]) for i in list(g["outer"]) + list(g["inner"]))))
         else:
             k.append((s["a"], fn_of(s), eff_tiles(length, tile)))
-    return tuple(k[-1:])
+    if len(k) > 1:
+        # histories of several calls need many kernels each: keep them together in one worker per device
+        # (their execution is cheap) instead of compiling those kernels in every worker
+        return (("multi", "", None),)
+    return tuple(k)
 
 
 def replay_worker(exe, env, tmp, cases, timeout, max_crashes):
@@ -276,7 +280,7 @@ def run(ctx):
                 ("design_range", "mc/Functional_design_range.cfg", dict(workers=tlcw, coverage=True))]
         # (name, cfg, simulate num, depth)
         gens = [("tiled", "mc/Functional_gen_tiled.cfg", None, None), ("values", "mc/Functional_gen_values.cfg", None, None),
-                ("pairs", "mc/Functional_gen_pairs.cfg", None, None), ("helpers", "mc/Functional_gen_helpers.cfg", None, None),
+                ("pairs", "mc/Functional_gen_pairs.cfg", None, None),
                 ("range", "mc/Functional_gen_range.cfg", None, None), ("range_tiled", "mc/Functional_gen_range_tiled.cfg", None, None),
                 ("loop", "mc/Functional_gen_loop.cfg", None, None)]
         if thorough:
@@ -343,7 +347,7 @@ def run(ctx):
     # ---- 3. execute on both devices
     exe, lib = ctx.build_harness("functional_replay", ["functional_replay.cpp"], variant="fast")
     env = ctx.occa_env(lib)
-    env.update({"OMP_NUM_THREADS": "3", "OMP_WAIT_POLICY": "passive", "GOMP_SPINCOUNT": "0", "C23_STEP_TIMEOUT": "180" if thorough else "120"})
+    env.update({"OMP_NUM_THREADS": "3", "OMP_WAIT_POLICY": "passive", "GOMP_SPINCOUNT": "0", "C23_STEP_TIMEOUT": "3600", "C23_STEP_CPU": "90"})
     results = {}
 
     def exec_mode(mode):
